@@ -233,6 +233,19 @@ func c05Scenario(c *Ctx, idx int, r *Rng) {
 		sizeOf[sha(b)] = int64(len(b))
 		return b
 	}
+	// a file committed as a pointer written by an early client: one of the older version URLs the decoder still
+	// accepts (lfs/pointer.go v1Aliases), the object itself in local storage
+	newFile := func() []byte {
+		b := newContent()
+		if !r.Chance(12) {
+			return b
+		}
+		op := w.objectPath(sha(b))
+		os.MkdirAll(filepath.Dir(op), 0o755)
+		os.WriteFile(op, b, 0o644)
+		c.R.Count("legacy-version-pointer")
+		return []byte(fmt.Sprintf("version %s\noid sha256:%s\nsize %d\n", Pick(r, []string{"https://hawser.github.com/spec/v1", "http://git-media.io/v/2"}), sha(b), len(b)))
+	}
 	if rootHasLfs {
 		// the ROOT commit itself introduces LFS files (a repository that started with LFS)
 		w.write("a.bin", newContent())
@@ -258,7 +271,7 @@ func c05Scenario(c *Ctx, idx int, r *Rng) {
 		case 0, 1, 2, 3:
 			k := 1 + r.Intn(2)
 			for j := 0; j < k; j++ {
-				w.write(Pick(r, files), newContent())
+				w.write(Pick(r, files), newFile())
 			}
 			s.commit(w.dir, fmt.Sprintf("c%d", op))
 			s.log("commit (age %.1fd)", s.age)
@@ -281,10 +294,10 @@ func c05Scenario(c *Ctx, idx int, r *Rng) {
 				cur := w.must("rev-parse", "--abbrev-ref", "HEAD")
 				side := fmt.Sprintf("s%d", op)
 				w.git("checkout", "-q", "-b", side)
-				w.write(Pick(r, files), newContent())
+				w.write(Pick(r, files), newFile())
 				s.commit(w.dir, "side")
 				w.git("checkout", "-q", cur)
-				w.write(Pick(r, files), newContent())
+				w.write(Pick(r, files), newFile())
 				s.commit(w.dir, "main line")
 				branches = append(branches, side)
 				s.log("diverge %s / %s", cur, side)
@@ -329,14 +342,14 @@ func c05Scenario(c *Ctx, idx int, r *Rng) {
 			_, code := w.git("push", "-q", tgt, b)
 			s.log("push %s %s -> %d", tgt, b, code)
 		case 10:
-			w.write(Pick(r, files), newContent())
+			w.write(Pick(r, files), newFile())
 			args := []string{"stash"}
 			if r.Chance(40) {
 				w.write("untracked"+fmt.Sprint(op)+".bin", newContent())
 				args = append(args, "-u")
 			} else if r.Chance(30) {
 				w.git("add", "-A")
-				w.write(Pick(r, files), newContent()) // index and working tree differ
+				w.write(Pick(r, files), newFile()) // index and working tree differ
 			}
 			if _, code := w.gitEnv(s.dateEnv(), args...); code == 0 {
 				stashes++
@@ -417,7 +430,7 @@ func c05Scenario(c *Ctx, idx int, r *Rng) {
 			s.log("removed %s from the working tree", f)
 		}
 	case 1:
-		w.write(Pick(r, files), newContent())
+		w.write(Pick(r, files), newFile())
 		s.log("unstaged edit")
 	}
 	// ---- server side: which objects does the remote hold?  (objects arrive by push; some get lost)
